@@ -15,7 +15,7 @@ SHARDS = {"quick": 6, "thorough": 16}
 SOAK = {"thorough": ["tests/core", "tests/materiallaws", "tests/strength", "tests/stress/collective"]}      # contract soak under the repository's own tests
 WATCHDOG = {"quick": 1200, "thorough": 3300}
 REQUIRED_CLASSES = {t: ["names:equal", "names:disjoint", "names:prm_contained_in_obj", "names:obj_contained_in_prm",
-                        "names:overlapping", "order:permuted_levels", "levels:3", "unnamed_level", "keys:int", "keys:str",
+                        "names:overlapping", "order:permuted_levels", "keys:equal_tuples_in_permuted_level_order", "levels:3", "unnamed_level", "keys:int", "keys:str",
                         "keys:interval", "keys:coinciding_positions", "lengths:equal", "lengths:unequal", "obj:Series",
                         "obj:DataFrame", "prm:Series", "prm:DataFrame", "prm:scalar", "prm:array", "prm:array_float64", "prm:array_int",
                         "prm:array_float32", "prm:list_of_int", "end_to_end:woehler"]
@@ -147,6 +147,16 @@ def run_case(case, ctx):
     full = cfg in ("overlapping", "prm_in_obj", "obj_in_prm")      # every shared key present in both operands
     obj = _make(rng, obj_names, keysets, rng.random() < 0.5, full)
     prm = _make(rng, prm_names, prm_keysets, rng.random() < 0.4, full)
+    if cfg == "equal" and coincide and list(prm_names) != list(obj_names) and len(obj_names) > 1 and rng.random() < 0.7:
+        # the same level names in another order over the same key values, rows in product order in both operands: the key tuples
+        # of the two indices are equal position by position although they mean different keys
+        def _prod(names, as_frame):
+            idx = pd.MultiIndex.from_product([keysets[n] for n in names], names=names)
+            if as_frame:
+                return pd.DataFrame({"x": rng.uniform(1, 2, len(idx)).round(6), "y": rng.integers(0, 100, len(idx)).astype(float)}, index=idx)
+            return pd.Series(rng.uniform(1, 2, len(idx)).round(6), index=idx, name="v")
+        obj, prm = _prod(obj_names, rng.random() < 0.5), _prod(prm_names, rng.random() < 0.4)
+        ctx.tag("keys:equal_tuples_in_permuted_level_order")
     if cfg == "disjoint" and rng.random() < 0.4:
         # unnamed single-level indices: on the object (Series: documented column case; DataFrame: generic path) or the parameter
         r = rng.random()
